@@ -9,6 +9,10 @@ GOMP_barrier are interposed to observe region instances and barrier epochs.  The
 iteration: epoch, read cells, written cells (footprints are functions of the iteration, not of the schedule) - is
 model-checked by TLC (spec/OmpRegions.tla, RaceFree): two iterations that some schedule can run simultaneously never
 touch the same cell unless both only read.  Small observed tables are additionally run through the interleaving model.
+Intended schedule: spec/ZebraSchedule.tla writes the schedules of ResidualGive::computeResidual and SmootherTake::smoothing
+as formulas in the grid shape; TLC proves EpochDisjoint / AllRadialOnce / AllCirclesOnce for every shape class (696 shapes,
+also the ones no run builds) and emits the intended per-iteration footprints; the operators are run alone on harness-owned
+levels and their observed tables must be contained in the intended ones (same loops, iteration ids, epochs; footprints inside).
 """
 import json
 import os
@@ -133,6 +137,35 @@ def run(rep, tier):
             raise vlib.HarnessError("OmpModel failed:\n" + t.out[-1500:])
         done += 1
     rep.cov["observed_tables_through_interleaving_model"] = done
+    # 4. the intended schedules (formulas in the shape) hold for every shape class; the real operators stay inside them
+    vlib.sany("ZebraSchedule")
+    z = vlib.tlc("ZebraSchedule", os.path.join(vlib.SPEC, "ZebraSchedule_mc.cfg"), workers=8, heap="8g", tag="zebra", timeout=1500)
+    rep.add_tlc(z, "ZebraSchedule.tla: EpochDisjoint, AllRadialOnce, AllCirclesOnce for every shape nr in 5..12, ntheta in 4..24, 2..9 circles, both boundary modes")
+    if z.rc == 12:
+        rep.violation("model:Zebra:" + z.violation, "ZebraSchedule.tla: %s violated\n%s" % (z.violation, vlib.counterexample(z)[:1200]), replay={"spec": "ZebraSchedule"})
+    elif z.rc != 0:
+        raise vlib.HarnessError("ZebraSchedule failed:\n" + z.out[-1500:])
+    ops_shapes = [(9, 12, 4, 0), (9, 12, 5, 1), (8, 8, 3, 0), (10, 16, 6, 0), (10, 16, 7, 1)]
+    if thorough:
+        ops_shapes += [(12, 20, 9, 0), (12, 20, 2, 1), (7, 4, 3, 0), (9, 12, 6, 1), (8, 8, 5, 1), (12, 8, 8, 0), (10, 16, 2, 0)]
+    tabs, err = oc.intended_tables(rep, sorted({(a, b) for (a, b, _c, _d) in ops_shapes}))
+    if err:
+        rep.violation("model:Zebra:emit", err, replay={"spec": "ZebraSchedule"})
+    else:
+        nops = 0
+        for i, (nr, nt, nc, d) in enumerate(ops_shapes):
+            obs, err = oc.observe_ops(nr, nt, nc, d, [3, 2, 5][i % 3])
+            if err:
+                rep.violation("schedule:crash", err, replay={"shape": [nr, nt, nc, d]})
+                continue
+            for op in ("residualGive", "smootherTake"):
+                why = oc.contained(obs.get(op, []), tabs[(op, nr, nt, nc, bool(d))])
+                nops += 1
+                rep.case(key="ops_%s_%dx%d_c%d_d%d" % (op, nr, nt, nc, d), nontrivial=True)
+                if why:
+                    rep.violation("schedule:%s" % op, "%s on a %dx%d grid with %d circles (dirbc=%d) leaves the intended schedule of ZebraSchedule.tla: %s"
+                                  % (op, nr, nt, nc, d, why), replay={"op": op, "shape": [nr, nt, nc, d], "why": why})
+        rep.cov["operators_contained_in_intended_schedule"] = nops
     rep.cov["rule"] = ("each case = one whole setup()+solve() of the real library on a grid-shape class (number of circles mod 2,3,4; ntheta mod 3 and 4) x "
                        "strategy x extrapolation x FMG x boundary mode x team size; every distinct region table is one TLC state")
 
